@@ -735,6 +735,7 @@ class Assembler:
         return text
 
     def find_fn(self, path):
+        path = path.split("#")[0]      # `PATH#TAG`: a specialised copy (R19) of PATH
         fi, cands = self.src.find(path)
         cands = [c for c in cands if c.kind == "fn"]
         if not cands:
@@ -848,11 +849,43 @@ class Assembler:
         v = fi.v
         name_idx, po, pc, arrow, ret_a, ret_b, where, body_open = self.sig_parts(v, it)
         src_name = v.text(name_idx)
-        emit_name = src_name + {"home": "", "strict": "__strict", "canary": "__canary", "extern": ""}[mode]
+        tag = fs.path.split("#")[1] if "#" in fs.path else None
+        base_name = src_name + ("__" + tag if tag else "")
+        emit_name = base_name + {"home": "", "strict": "__strict", "canary": "__canary", "extern": ""}[mode]
         edits = []
         inserts = []
         a, b = it.start, it.end
         body_a, body_b = (it.body[0] + 1, it.body[1]) if it.body else (b, b)
+        if tag:
+            # R19: specialisation of a function-pointer parameter (Verus has no function pointer types): the parameter is
+            # dropped from the signature and every call through it calls the named function
+            if mode in ("home", "extern"):
+                edits.append(Edit(name_idx, name_idx + 1, emit_name, "R19", f"specialised copy {emit_name} of {src_name}"))
+            for prm, fn_name in fs.specialize.items():
+                k = po + 1
+                hit = False
+                while k < pc:
+                    if v.is_id(k, prm) and v.is_p(k + 1, ":"):
+                        j = k
+                        depth = 0
+                        while j < pc and not (depth == 0 and v.is_p(j, ",")):
+                            if v.text(j) in ("(", "[", "<"):
+                                depth += 1
+                            elif v.text(j) in (")", "]", ">"):
+                                depth -= 1
+                            elif v.text(j) == "->":
+                                pass
+                            j += 1
+                        edits.append(Edit(k, j + 1 if v.is_p(j, ",") else j, "", "R19", f"function-pointer parameter {prm} dropped (calls go to {fn_name})"))
+                        hit = True
+                        break
+                    k += 1
+                if not hit:
+                    raise ExtractError(f"lost anchor: {fs.path}: parameter {prm} not found")
+                if mode in ("home", "strict"):
+                    for k in range(body_a, body_b):
+                        if v.is_id(k, prm) and v.is_p(k + 1, "(") and not v.is_p(k - 1, "."):
+                            edits.append(Edit(k, k + 1, fn_name, "R19", f"call through {prm} -> {fn_name}"))
 
         if mode in ("home", "strict"):
             edits += self.rules_body(fi, a, b, fs)
@@ -860,7 +893,7 @@ class Assembler:
             # signature only: rules on the signature range
             edits += self.rules_body(fi, a, body_open, fs)
         if mode != "home":
-            edits.append(Edit(name_idx, name_idx + 1, emit_name, "TWIN", f"{mode} twin of {src_name}")) if mode in ("strict", "canary") else None
+            edits.append(Edit(name_idx, name_idx + 1, emit_name, "TWIN", f"{mode} twin of {base_name}")) if mode in ("strict", "canary") else None
         for at in fs.attrs:
             if mode in ("home", "strict"):
                 inserts.append(Ins(it.head, at, "attr"))
